@@ -153,7 +153,7 @@ CHECKS = {
         text='Each generated sequence over priority/!del/!merge tags is rebuilt twice, with the last document repeated, with {} inserted at every '
              'position, with every mapping\'s keys permuted and with !unsafe/!new markers added on random nodes; plain(Builder.build()) must agree. '
              'One open known finding (list pre-filter, idempotence only) is attributed by a root-cause probe and reported as KNOWN-FINDING.',
-        note='Relations between runs of the implementation; the known finding is attributed only to idempotence failures in builds where the list pre-filter dropped nodes.',
+        note='Relations between runs of the implementation; two open known findings, both attributed only to idempotence failures: list-prefilter-partial-survivor (only in builds where the root-cause probe saw a partial list removal) and del-rewritten-key-order (only when the data are equal and just the key order differs after a repeated !del mapping).',
         design='4/C15'),
 }
 
